@@ -153,3 +153,9 @@ contract(D + 'deep_merge_multi_update', props=['C06', 'C01', 'C08'], pure=True, 
              'forall(lambda k: has(dct, k) == (has(entry(dct), k) or ((k in _done) and has(merge_dct, k))))',
              'forall(lambda k: implies((k in _done), mmerged_at(dct, entry(dct), merge_dct, k)))',
              'forall(lambda k: implies(not (k in _done) and has(entry(dct), k), child(dct, k) == child(entry(dct), k)))']}})
+
+
+external(D + 'deep_copy_internal', types={'d': 'Tree', 'ret': 'Tree'}, ensures=['ret == d'],
+         why_trusted='copies the dictionaries of a nested dict and keeps every other object: equal by value (recursion inside a dict '
+                     'comprehension over a Tree is outside the translated subset); that the copy is a NEW object is what the '
+                     'bounded frame monitor and the witnesses F-C08-update-alias / F-C07-subschema-alias check')
